@@ -9,8 +9,49 @@ WORDS = ["ab", "ba", "abc", "cab", "a", "b", "c", "bca", "aab", "bb", "ac", "ca"
 MASK = 0x1fffffffffffff
 
 
-def make_lines(rng, n):
+def make_lines(rng, n, sparse=False):
+    if sparse:      # few matches per 100-item chunk, so that per-chunk result caching (<= 20 matches) is exercised
+        voc = ["ab", "abc", "xab", "abx", "cab", "bca", "ba", "xyz", "xxy", "yyx", "zzy", "yzx", "xzz", "zyx", "yxy", "zxz", "xy", "yz", "zx",
+               "x", "y", "z", "xx", "yy", "zz", "xyx", "yzy", "zxy", "xzy", "yxz"]
+        return ["%05d %s %s" % (i, rng.choice(voc), rng.choice(voc[7:])) for i in range(n)]
     return ["%05d %s %s" % (i, rng.choice(WORDS), rng.choice(WORDS)) for i in range(n)]
+
+
+# query pairs whose compiled patterns share (or must not share) result-cache keys
+CACHE_PAIRS = [("^ab", "ab"), ("ab$", "ab"), ("'ab", "ab"), ("!ab", "ab"), ("ab | xyz", "ab"), ("'ab'", "ab"), ("^ab$", "ab"), ("ab", "abc"),
+               ("abc", "ab"), ("ab", "b"), ("a b", "ab"), ("ab", "a b"), ("^x", "x"), ("x$", "x"), ("xy", "xyz"), ("'xy", "xy"), ("!xy", "xy"),
+               ("xy", "^xy"), ("ab", "ab$"), ("xyz", "yz"), ("ab !x", "ab"), ("ab", "ab x")]
+
+
+def scenario_steps(rng, kind, reloads):
+    """Directed step lists (every step settles before the next): cache-key collisions; exclude / reload / same query."""
+    st = []
+
+    def add(post, settle=True):
+        st.append({"sleep": 0, "post": post, "settle": settle})
+    if kind == "cachekeys":
+        pairs = list(CACHE_PAIRS)
+        rng.shuffle(pairs)
+        for a, b in pairs[:rng.randint(5, 9)]:
+            add("change-query(%s)" % a)
+            add("change-query(%s)" % b)
+            if rng.random() < 0.3:
+                add("toggle-sort")
+    else:
+        qs = ["ab", "x", "xy", "b", "a"]
+        q = rng.choice(qs)
+        add("change-query(%s)" % q)
+        add(rng.choice(["exclude", "down+exclude", "toggle+down+toggle+exclude-multi"]))
+        if rng.random() < 0.5:
+            add("change-query(%s)" % rng.choice(qs))
+            add("exclude")
+        if reloads > 0:
+            add(rng.choice(["RELOAD0", "RELOADSYNC0"]))
+        add("change-query(%s)" % rng.choice(qs))
+        add("change-query(%s)" % q)
+        add("clear-query")
+        add("change-query(%s)" % q)
+    return st
 
 
 def fnv_res(ids):
@@ -105,6 +146,19 @@ def run_session(ctx, fzf, sid, lines, sched, steps, extra_args=(), width=70, hei
             code, _ = s.post(body)
             if code != 200:
                 raise Infra("POST %r -> %d" % (body, code))
+            if st.get("settle"):
+                # the search this step triggered (if any) has been displayed and the (re)loader is idle
+                def settled(tr):
+                    resets = [e["seq"] for e in tr if e["ev"] == "match.reset"]
+                    lists = [e["seq"] for e in tr if e["ev"] == "term.list"]
+                    reads = [e for e in tr if e["ev"] == "coord.read"]
+                    restarts = [e["seq"] for e in tr if e["ev"] == "coord.restart"]
+                    if not reads or not reads[-1].get("fin") or (restarts and restarts[-1] > reads[-1]["seq"]):
+                        return False
+                    return bool(lists) and (not resets or lists[-1] > resets[-1])
+                s.wait_trace_quiet(quiet=0.03, timeout=60)
+                s.wait_for(settled, timeout=60, what="step settled")
+                s.wait_trace_quiet(quiet=0.03, timeout=60)
         # quiescence: reader finished, every request served, the last result displayed, nothing moves any more
         def quiet(tr):
             if not any(e["ev"] == "coord.read" and e.get("fin") for e in tr):
